@@ -216,6 +216,28 @@ class Replayer:
         calls = iter([o for _, o, _ in orders])
         return parse_case('v2', case, lambda order: evaluate(next(calls)), self.e2.ExpressionSyntaxError, fixed)
 
+    def v2_parser(self, case):
+        """the generic _Parser on the namespace backend: the tuple it returns (shape, index string in the order of
+        the first term, summed indices) against the algorithm model's (case pix / psm / arr)"""
+        if case['ok'] != 'ok':
+            return Outcome('skip')
+        s = text(case)
+        e2 = self.e2
+        try:
+            with warnings.catch_warnings():
+                warnings.simplefilter('ignore')
+                arr, shape, indices, summed = e2._Parser(e2._FunctionArrayOps(self.ns2)).parse_expression(e2._Substring(s))
+        except Exception as ex:
+            return Outcome('violation', 'v2parser:valid-{}:{}'.format(classify(ex, e2.ExpressionSyntaxError), opsig(case)),
+                           'v2 _Parser.parse_expression refused the valid expression {!r}: {}'.format(s, str(ex).split('\n')[0][:160]))
+        want_sh = dict(zip(case['fr'], case['arr']['sh']))
+        if indices != ''.join(case['pix']) or set(summed) != set(case['psm']) or tuple(shape) != tuple(want_sh[i] for i in case['pix']) \
+                or tuple(numpy.shape(arr)) != tuple(shape):
+            return Outcome('violation', 'v2parser:bookkeeping:{}'.format(opsig(case)),
+                           'v2 _Parser.parse_expression({!r}) returned shape {}, indices {!r}, summed {}; the algorithm model gives indices {!r}, summed {}'.format(
+                               s, tuple(shape), indices, sorted(summed), ''.join(case['pix']), sorted(case['psm'])))
+        return Outcome('ok', checked=1)
+
     # -- version 1 ------------------------------------------------------------
     def v1_applicable(self, case):
         ops = set(case['ops'])
